@@ -148,6 +148,15 @@ func Mint(parent *Ent, s CertSpec) *Ent {
 		tmpl.ExtraExtensions = []pkix.Extension{{Id: oidEKU, Critical: true, Value: v}}
 	case "tsa-none":
 		tmpl.KeyUsage = x509.KeyUsageDigitalSignature
+	case "tsa-keyusage": // the right (critical, sole) EKU, but a key usage without digitalSignature
+		tmpl.KeyUsage = x509.KeyUsageKeyEncipherment
+		v, _ := asn1.Marshal([]asn1.ObjectIdentifier{oidTimeStamping})
+		tmpl.ExtraExtensions = []pkix.Extension{{Id: oidEKU, Critical: true, Value: v}}
+	case "tsa-ca": // the right EKU on a certificate that is itself a CA
+		tmpl.KeyUsage = x509.KeyUsageDigitalSignature | x509.KeyUsageCertSign
+		tmpl.IsCA, tmpl.BasicConstraintsValid = true, true
+		v, _ := asn1.Marshal([]asn1.ObjectIdentifier{oidTimeStamping})
+		tmpl.ExtraExtensions = []pkix.Extension{{Id: oidEKU, Critical: true, Value: v}}
 	default:
 		panic("unknown cert kind " + s.Kind)
 	}
